@@ -12,6 +12,10 @@ KNOWN = os.path.join(VERIF, 'known_findings.json')
 
 HOLDS, VIOLATION, UNDECIDED = 'HOLDS', 'VIOLATION', 'UNDECIDED'
 
+# rules whose violations are positive evidence whatever else the function does (a store into a
+# shared object is a store): never downgraded by the closed-world gate
+WITNESS_RULES = {'R5-runtime-stateless', 'R5-no-compile-at-runtime', 'R5-fixture'}
+
 
 class Ob:
     """one rule instance evaluated on one construct"""
@@ -53,6 +57,15 @@ class Ctx:
         else:
             file, function = where
         verdict = HOLDS if ok is True else VIOLATION if ok is False else UNDECIDED
+        if verdict == VIOLATION and rule not in WITNESS_RULES and not os.environ.get('BISTAT_NO_GATE'):
+            # closed-world gate: "not what the rule expects" is evidence only in a function whose
+            # every construct the analysis resolves
+            fi = where if hasattr(where, 'node') else self.repo.func_by_where(file, function)
+            feats = self.repo.opaque_features(fi) if fi is not None else []
+            if feats:
+                verdict = UNDECIDED
+                ok = None
+                reason = 'no verdict: the function uses constructs whose flow the analysis does not resolve (%s), so this is not evidence of a violation [%s]' % ('; '.join(feats[:3]), reason)
         o = Ob(rule, file, function, statement, verdict, reason, line, clause, key)
         self.obs.append(o)
         return ok
